@@ -34,7 +34,7 @@ LAW_BATCHES = 4
 
 
 def plan(tier):
-    return [("walk", 1600 if tier == "quick" else 60000), ("law", LAW_CFGS[tier] * LAW_BATCHES)]
+    return [("walk", 1600 if tier == "quick" else 20000), ("law", LAW_CFGS[tier] * LAW_BATCHES)]
 
 
 # ------------------------------------------------------------------ E3
